@@ -244,6 +244,9 @@ type run struct {
 	panicked   string
 	sends      map[uint64]int
 	unbecomes  int
+	ctxOf      map[key]*actor.Context
+	spawnAt    []spawnRec              // successful ActorOf calls, with the position in the invocation log at which they returned
+	early      []string                // termination reports sent / handled while the terminated context was still registered (C06)
 	watchersAt map[key][]string        // context -> who was watching it when its behaviour saw its own OnKilled
 	watching   map[key]map[string]bool // context -> paths whose Watch request it has handled (and no Unwatch since)
 	stashCalls map[uint64]int          // tag -> Stash() calls made while that user message was the current one (each parks one more copy)
@@ -258,6 +261,10 @@ func (r *run) keyOf(c *actor.Context) key {
 	k := key{info.Path, r.perPath[info.Path]}
 	r.perPath[info.Path]++
 	r.keys[c] = k
+	if r.ctxOf == nil {
+		r.ctxOf = map[key]*actor.Context{}
+	}
+	r.ctxOf[k] = c
 	r.order = append(r.order, c)
 	r.refKey[info.Ref] = k
 	return k
@@ -347,6 +354,13 @@ type slogEv struct {
 }
 
 // panicRec / decRec feed the C08 monitor "a failure of a running child is presented to its (surviving) parent's strategy".
+// spawnRec: ActorOf(child) by parent returned without error when the invocation log had at entries
+type spawnRec struct {
+	parent key
+	child  string
+	at     int
+}
+
 type panicRec struct {
 	who   key
 	state int // state of the failing context when user code panicked: 0 running, 1 killing, 2 killed
@@ -550,8 +564,12 @@ func (r *run) exec(c apiCtx, full vivid.ActorContext, who key, a Action, ext int
 		c.Unwatch(r.evalRef(c, full, a.R, ext))
 	case aSpawn:
 		act, opts := r.newActor(a.Spec)
+		before := len(r.seens) // the child can run (and even end) while ActorOf is still inserting its OnLaunch
 		ref, err := c.ActorOf(act, opts...)
 		r.obs = append(r.obs, lib.L(lib.N(2), who.T(), lib.N(a.Spec.Name), lib.N(spawnCode(err))))
+		if err == nil && ref != nil {
+			r.spawnAt = append(r.spawnAt, spawnRec{who, ref.GetPath(), before})
+		}
 		if err == nil && ext >= 0 {
 			r.held[ext] = append(r.held[ext], ref)
 		}
@@ -603,6 +621,33 @@ func (r *run) exec(c apiCtx, full vivid.ActorContext, who key, a Action, ext int
 	}
 }
 
+// checkReleased (C06 "once terminated its path is released"): a termination report for x - OnKilled(x) to the parent or a
+// watcher, ActorKilledEvent(x) to a subscriber - exists (is being inserted into a mailbox, or is being handled) while
+// the registry still maps x's path to the very context that terminated: FindActor(x) still finds an actor already
+// reported terminated and the parent cannot reuse the name
+func (r *run) checkReleased(msg any, where string) {
+	var ref vivid.ActorRef
+	what := ""
+	switch m := msg.(type) {
+	case *vivid.OnKilled:
+		ref, what = m.Ref, "OnKilled"
+	case ves.ActorKilledEvent:
+		ref, what = m.ActorRef, "ActorKilledEvent"
+	default:
+		return
+	}
+	if ref == nil {
+		return
+	}
+	k, ok := r.refKey[ref]
+	if !ok {
+		return
+	}
+	if c := r.ctxOf[k]; c != nil && actor.XVRegistered(r.sys, c) {
+		r.early = append(r.early, fmt.Sprintf("%s for %v (%s) while the registry still maps %s to that context", what, k, where, k.path))
+	}
+}
+
 func (a *sa) interp(ctx vivid.ActorContext, mode uint64) {
 	r := a.r
 	c := ctx.(*actor.Context)
@@ -630,6 +675,9 @@ func (a *sa) interp(ctx vivid.ActorContext, mode uint64) {
 		r.slog = append(r.slog, slogEv{4, who, 101, ev.P})
 	case Ev102:
 		r.slog = append(r.slog, slogEv{4, who, 102, ev.P})
+	}
+	if !(kind == 3 && ref == who.path) { // not the actor's own OnKilled: that is shown to the behaviour before the release
+		r.checkReleased(ctx.Message(), fmt.Sprintf("%v handles it", who))
 	}
 	if kind == 3 && ref == who.path {
 		if r.watchersAt == nil {
@@ -699,6 +747,8 @@ type result struct {
 	supCalls         []*supCall
 	provider         map[key]bool
 	watchersAt       map[key][]string
+	spawnAt          []spawnRec
+	early            []string
 	restartWithStash int // Restart directives handled by an actor that had mail parked in its stash
 	scripted         map[string]bool
 	deadLaunch       map[string]bool
@@ -811,6 +861,11 @@ func execute(scripts [][]Action, choose func([]int, int) int) result {
 				}
 			}
 			pi.desc = d
+			if env != nil {
+				if ok, isK := env.Message().(*vivid.OnKilled); !isK || ok.Ref == nil || ok.Ref.GetPath() != k.path { // not the guard's / an actor's own notice to itself
+					r.checkReleased(env.Message(), fmt.Sprintf("inserted into the mailbox of %v", k))
+				}
+			}
 			if sc := openSup[real]; sc != nil && env != nil {
 				msg, target := env.Message(), ""
 				if env.Receiver() != nil {
@@ -932,6 +987,7 @@ func execute(scripts [][]Action, choose func([]int, int) int) result {
 		sc.aborted = true
 	}
 	res.supCalls, res.provider, res.watchersAt = r.supCalls, r.provider, r.watchersAt
+	res.spawnAt, res.early = r.spawnAt, r.early
 	res.sent = r.sends
 	res.stashCalls = r.stashCalls
 	for _, sh := range shadow {
@@ -1056,6 +1112,8 @@ type gen struct {
 	r       *lib.Rand
 	noSpawn bool // inside an OnKilled script: respawning a child there while being killed never terminates (user-level livelock)
 	nextTag uint64
+	streamK int        // event-stream scenarios generated so far (every second one turns subscriber 1 into a zombie and kills it)
+	watchK  int        // death-watch scenarios generated so far (every second one respawns the target from the parent's OnKilled handler)
 	names   [][]uint64 // paths that may exist
 }
 
@@ -1376,6 +1434,22 @@ func (g *gen) streamScenario() [][]Action {
 		}
 		return Action{K: aTell, R: RX{K: 4, P: []uint64{1, target}}, Tag: g.tag(), Acts: acts}
 	}
+	g.streamK++
+	if g.streamK%2 == 0 {
+		// C19 "after the subscriber has terminated ... the stream then holds no entry for it", for the termination of a
+		// ZOMBIE: subscriber 1 fails, its restart fails (OnRestarted), the zombie is killed (poison: queued behind the
+		// failing message), events are published afterwards. Sent by the parent right after the spawns.
+		for _, a := range parent.Launch {
+			if a.K == aSpawn && a.Spec.Name == 1 {
+				a.Spec.Hooks = [][3]bool{{true, false, true}}
+			}
+		}
+		parent.Decisions = []int{1, 1, 1, 5}
+		parent.Launch = append(parent.Launch,
+			Action{K: aTell, R: RX{K: 3, N: 1}, Tag: g.tag(), Acts: []Action{{K: aPanic}}},
+			Action{K: aKill, R: RX{K: 3, N: 1}, Poison: true},
+			Action{K: aTell, R: RX{K: 3, N: 2}, Tag: g.tag(), Acts: []Action{{K: aPub, Ty: 100, Payload: g.tag()}, {K: aPub, Ty: 101, Payload: g.tag()}}})
+	}
 	main := []Action{{K: aSpawn, Spec: parent}}
 	for i := 0; i < 4+g.r.Intn(8); i++ {
 		main = append(main, msg(uint64(1+g.r.Intn(n))))
@@ -1587,6 +1661,17 @@ func (g *gen) watchScenario() [][]Action {
 		if g.r.Chance(1, 4) {
 			p.Launch = append(p.Launch, Action{K: aSpawn, Spec: t}) // re-spawn under the same name (fails while the old one is alive)
 		}
+	}
+	g.watchK++
+	if g.watchK%2 == 0 {
+		for i, d := range p.Decisions {
+			if d == 6 {
+				p.Decisions[i] = 3 // never escalate here: a parent that is being stopped and keeps re-spawning never ends (user-level)
+			}
+		}
+		// the parent (which is never stopped in this scenario) re-spawns the target under the same name from its
+		// OnKilled(child) handler: the name must be free by then (C06 "the name can be reused by the parent")
+		p.Killed = []Action{{K: aSpawn, Spec: t}}
 	}
 	main := []Action{{K: aSpawn, Spec: p}}
 	if g.r.Chance(1, 3) { // a watcher outside the subtree; its request races the rest
@@ -1904,6 +1989,40 @@ func (h *H) monitors(scripts [][]Action, res result, in lib.T) {
 					h.o.Monitor("c06-parent-before-descendant", in, fmt.Sprintf("%v saw its own OnKilled before its descendant %v did", anc, desc))
 				}
 			}
+		}
+	}
+	// the same from the parent's side, independent of the schedule: a child whose ActorOf had returned successfully before
+	// the parent's (next) own OnKilled must have seen its own OnKilled in between
+	ownKilledAll := map[string][]int{} // path -> positions of own OnKilled of any context under that path
+	ownKilledOf := map[key][]int{}
+	for i, s := range res.seens {
+		if s.kind == 3 && s.ref == s.who.path {
+			ownKilledAll[s.who.path] = append(ownKilledAll[s.who.path], i)
+			ownKilledOf[s.who] = append(ownKilledOf[s.who], i)
+		}
+	}
+	for _, sp := range res.spawnAt {
+		ia := -1
+		for _, i := range ownKilledOf[sp.parent] {
+			if i >= sp.at {
+				ia = i
+				break
+			}
+		}
+		if ia < 0 {
+			continue // the parent has not terminated (or been restarted) since
+		}
+		ok := false
+		for _, i := range ownKilledAll[sp.child] {
+			ok = ok || (i >= sp.at && i < ia)
+		}
+		if !ok {
+			h.o.Monitor("c06-parent-before-descendant", in, fmt.Sprintf("%v saw its own OnKilled although its child %s, whose ActorOf had already returned successfully, had not seen its own OnKilled yet", sp.parent, sp.child))
+		}
+	}
+	if !unavailable()["registry"] {
+		for _, e := range res.early {
+			h.o.Monitor("c06-reported-terminated-but-registered", in, e)
 		}
 	}
 	gensOf := map[string]int{}
@@ -2427,7 +2546,7 @@ func main() {
 		})
 	}
 	// monitor-only scenarios (harness-only script features; not replayed on the model)
-	mo := 12
+	mo := 24
 	if f.Tier == "thorough" {
 		mo = 300
 	}
